@@ -232,6 +232,10 @@ func Random(r *rand.Rand, local bool) Scn {
 			s.Steps = append(s.Steps, st)
 			continue
 		}
+		if len(phaseNames) > 0 && r.Intn(14) == 0 { // (S1B) a third party deletes a phase object / the GC finishes an orphan deletion
+			s.Steps = append(s.Steps, phaseLossStep(r, pick(r, phaseNames)))
+			continue
+		}
 		switch x := r.Intn(20); {
 		case x < 11:
 			st := Step{Op: "reconcile", Set: set}
@@ -270,6 +274,33 @@ func Tags(s Scn, out string) []string {
 		if st.Op == "phase" {
 			t = append(t, "phase-step")
 			break
+		}
+	}
+	seenOp := map[string]bool{} // (S1B) third-party operations on phase objects
+	for _, st := range s.Steps {
+		op := ""
+		switch {
+		case st.Op == "gcPhase":
+			op = "gcPhase"
+		case st.Op == "delPhase" && st.Value == "force":
+			op = "delPhase-force"
+		case st.Op == "delPhase" && st.Orphan:
+			op = "delPhase-orphan"
+		case st.Op == "delPhase":
+			op = "delPhase"
+		}
+		if op != "" && !seenOp[op] {
+			seenOp[op] = true
+			t = append(t, op)
+		}
+	}
+	for _, pk := range []string{"C ObjectSetPhase/", "C ClusterObjectSetPhase/"} { // a phase object created twice in one history
+		for _, part := range strings.Split(out, pk)[1:] {
+			name := strings.SplitN(part, " ", 2)[0]
+			if strings.Count(out, pk+name+" ok") > 1 {
+				t = append(t, "phase-object-recreated")
+				break
+			}
 		}
 	}
 	for _, w := range []string{"C ObjectSetPhase", "C ClusterObjectSetPhase", "X ", "P ", "PartiallyPaused", "R ok", "R err", "R requeue", "A ", "M ", "D ", "Conflict", "CollisionDetected", "PreflightError", "ProbeFailure",
@@ -408,6 +439,177 @@ func Scripted(r *rand.Rand, delegated bool) Scn {
 		}
 	}
 	if len(s.Steps) > 1 && r.Intn(4) == 0 { // one swap
+		i := r.Intn(len(s.Steps) - 1)
+		s.Steps[i], s.Steps[i+1] = s.Steps[i+1], s.Steps[i]
+	}
+	return s
+}
+
+// ---- (S1B) loss of a delegated phase's API object
+
+// phaseLossStep: one third-party operation on the phase object `pn`.
+func phaseLossStep(r *rand.Rand, pn string) Step {
+	switch x := r.Intn(10); {
+	case x < 4:
+		return Step{Op: "delPhase", Set: pn}
+	case x < 7:
+		return Step{Op: "delPhase", Set: pn, Orphan: true}
+	case x < 8:
+		return Step{Op: "delPhase", Set: pn, Value: "force"}
+	default:
+		return Step{Op: "gcPhase", Set: pn}
+	}
+}
+
+// PhaseLoss builds histories around the loss of a delegated phase's API object: revision os1 rolls
+// out with delegated phases; a third party deletes a phase object — plainly (the phase controller
+// tears the phase down and lets the object go), with orphan propagation (nothing may be deleted;
+// the garbage collector releases the dependents and then the object) or by force (the object
+// vanishes, its dependents keep a dangling controller reference); the ObjectSet controller
+// re-creates the phase object under the same name with a new uid and the phase controller rolls
+// the phase out again; revision os2 (previous = [os1]) then takes the objects over.  Perturbed
+// like Scripted (dropped / repeated / swapped steps, a few third-party operations).
+func PhaseLoss(r *rand.Rand) Scn {
+	s := Scn{Cluster: r.Intn(5) == 0}
+	objNS := ""
+	if s.Cluster {
+		objNS = "ns1"
+	}
+	mk := func(name, payload string) verifphase.PObj {
+		return verifphase.PObj{Kind: "NsThing", NS: objNS, Name: name, CP: pick(r, []string{"Prevent", "Prevent", "Prevent", "IfNoController", "None"}),
+			Payload: payload, DryRun: "accept"}
+	}
+	cls := func(always bool) string {
+		if always || r.Intn(2) == 0 {
+			return "default"
+		}
+		return ""
+	}
+	os1 := SetSpec{Name: "os1", Phases: []PhaseSpec{
+		{Name: "p1", Class: cls(true), Objects: []verifphase.PObj{mk("a", "x")}},
+		{Name: "p2", Class: cls(false), Objects: []verifphase.PObj{mk("b", "x")}}}}
+	if r.Intn(4) == 0 { // a local phase in front: the delegated ones are reached only while it passes
+		os1.Phases = append([]PhaseSpec{{Name: "p0", Objects: []verifphase.PObj{mk("z", "x")}}}, os1.Phases...)
+	}
+	os2 := SetSpec{Name: "os2", Previous: []string{"os1"}, Phases: []PhaseSpec{
+		{Name: "p1", Class: cls(false), Objects: []verifphase.PObj{mk("a", pick(r, []string{"x", "y"}))}},
+		{Name: "p2", Class: cls(false), Objects: []verifphase.PObj{mk("b", "x"), mk("c", "x")}}}}
+	s.Sets = []SetSpec{os1, os2}
+	ready := func(name string) Step {
+		return Step{Op: "env", Env: []verifphase.EnvOp{{Op: "setReady", Kind: "NsThing", NS: "ns1", Name: name, Ready: true, ObsGen: -1}}}
+	}
+	var ideal []Step
+	rolloutPhase := func(sp SetSpec, ph PhaseSpec) {
+		if ph.Class != "" {
+			pn := sp.Name + "-" + ph.Name
+			ideal = append(ideal, Step{Op: "reconcile", Set: sp.Name}, Step{Op: "phase", Set: pn})
+			for _, o := range ph.Objects {
+				ideal = append(ideal, ready(o.Name))
+			}
+			ideal = append(ideal, Step{Op: "phase", Set: pn}, Step{Op: "reconcile", Set: sp.Name})
+		} else {
+			ideal = append(ideal, Step{Op: "reconcile", Set: sp.Name})
+			for _, o := range ph.Objects {
+				ideal = append(ideal, ready(o.Name))
+			}
+			ideal = append(ideal, Step{Op: "reconcile", Set: sp.Name})
+		}
+	}
+	rollout := func(sp SetSpec) {
+		ideal = append(ideal, Step{Op: "reconcile", Set: sp.Name})
+		for _, ph := range sp.Phases {
+			rolloutPhase(sp, ph)
+		}
+		ideal = append(ideal, Step{Op: "reconcile", Set: sp.Name})
+	}
+	var delegated []PhaseSpec
+	for _, ph := range os1.Phases {
+		if ph.Class != "" {
+			delegated = append(delegated, ph)
+		}
+	}
+	loss := func() {
+		ph := pick(r, delegated)
+		pn := "os1-" + ph.Name
+		switch x := r.Intn(10); {
+		case x < 5: // plain deletion: the phase controller cleans up, then lets the object go
+			ideal = append(ideal, Step{Op: "delPhase", Set: pn})
+			if r.Intn(3) == 0 { // the ObjectSet controller meets the phase object in deletion
+				ideal = append(ideal, Step{Op: "reconcile", Set: "os1"})
+			}
+			ideal = append(ideal, Step{Op: "phase", Set: pn}, Step{Op: "phase", Set: pn})
+		case x < 8: // orphan propagation: hands off; the GC finishes
+			ideal = append(ideal, Step{Op: "delPhase", Set: pn, Orphan: true}, Step{Op: "phase", Set: pn})
+			if r.Intn(3) == 0 {
+				ideal = append(ideal, Step{Op: "reconcile", Set: "os1"})
+			}
+			if r.Intn(3) == 0 {
+				ideal = append(ideal, Step{Op: "phase", Set: pn})
+			}
+			ideal = append(ideal, Step{Op: "gcPhase", Set: pn})
+		default: // forced removal
+			ideal = append(ideal, Step{Op: "delPhase", Set: pn, Value: "force"})
+		}
+		// recovery: re-created by the ObjectSet controller, rolled out again by the phase controller
+		rec := Step{Op: "reconcile", Set: "os1"}
+		if r.Intn(6) == 0 { // the status update of the re-creating pass is lost to a concurrent edit
+			rec.SetEnv = []SetEnv{{At: r.Intn(2), Op: "touch", Set: "os1"}}
+		}
+		ideal = append(ideal, rec, Step{Op: "phase", Set: pn})
+		for _, o := range ph.Objects {
+			ideal = append(ideal, ready(o.Name))
+		}
+		ideal = append(ideal, Step{Op: "phase", Set: pn}, Step{Op: "reconcile", Set: "os1"})
+	}
+	rollout(os1)
+	loss()
+	if r.Intn(4) == 0 {
+		loss()
+	}
+	if r.Intn(3) == 0 {
+		ideal = append(ideal, Step{Op: "reconcile", Set: "os1"})
+	}
+	rollout(os2)
+	if r.Intn(2) == 0 { // the old revision goes away
+		if r.Intn(2) == 0 {
+			ideal = append(ideal, Step{Op: "lifecycle", Set: "os1", Value: "Archived"})
+		} else {
+			ideal = append(ideal, Step{Op: "delete", Set: "os1"})
+		}
+		for i := 0; i < 3; i++ {
+			ideal = append(ideal, Step{Op: "reconcile", Set: "os1"})
+			for _, ph := range delegated {
+				ideal = append(ideal, Step{Op: "phase", Set: "os1-" + ph.Name})
+			}
+		}
+		ideal = append(ideal, Step{Op: "reconcile", Set: "os1"}, Step{Op: "reconcile", Set: "os2"})
+	}
+	// perturb
+	names := []string{"a", "b", "c"}
+	for _, st := range ideal {
+		x := r.Intn(100)
+		switch {
+		case x < 6: // dropped
+		case x < 11: // repeated
+			s.Steps = append(s.Steps, st, st)
+		case x < 14: // third-party operation first
+			e := verifphase.EnvOp{Kind: "NsThing", NS: "ns1", Name: pick(r, names), ObsGen: -1}
+			e.Op = pick(r, []string{"setReady", "setPayload", "delete", "reown", "setRev"})
+			switch e.Op {
+			case "setReady":
+				e.Ready = r.Intn(2) == 0
+				e.ObsGen = int64(r.Intn(4)) - 1
+			case "setPayload":
+				e.Payload = "drift"
+			case "setRev":
+				e.Rev = pick(r, verifphase.RevClasses)
+			}
+			s.Steps = append(s.Steps, Step{Op: "env", Env: []verifphase.EnvOp{e}}, st)
+		default:
+			s.Steps = append(s.Steps, st)
+		}
+	}
+	if len(s.Steps) > 1 && r.Intn(5) == 0 { // one swap
 		i := r.Intn(len(s.Steps) - 1)
 		s.Steps[i], s.Steps[i+1] = s.Steps[i+1], s.Steps[i]
 	}
